@@ -275,3 +275,122 @@ func ruleTextPositionUnits(p *Program, r *Report) {
 func init() {
 	register("C10", Rule{"R10g", ruleTextPositionUnits})
 }
+
+// R02j: an index belongs to the slice it was computed on.  After `s2 := s[lo:]` every position of s is lo further to
+// the left in s2.  A value that was used to index (or was compared while scanning) the longer slice and is then used,
+// unadjusted, as a bound of a re-slice of the shorter one cuts at the wrong place — invisible while lo is 0, which is
+// the only case the tests build (holes at one end only).
+func ruleIndexBase(p *Program, r *Report) {
+	r.Begin("R02j", "index base: in packages rel and syntax, a bound of a re-slice `t[:h]` / `t[l:]`, where t is (possibly through a reassigned variable) `s[lo:]` with a non-constant-zero lo, is not a value that was used to index s itself — an index computed on the longer slice is off by lo on the shorter one", 0)
+	defer r.End()
+	sites, viol := 0, 0
+	for _, fn := range p.RepoFns {
+		pp := PkgPathOf(fn)
+		if (pp != Mod+"/rel" && pp != Mod+"/syntax") || fn.Blocks == nil {
+			continue
+		}
+		// shorter[t] = the slice it was cut from with a low bound that is not the constant 0
+		longerOf := map[ssa.Value]ssa.Value{}
+		ForEachInstr(fn, func(ins ssa.Instruction) {
+			sl, ok := ins.(*ssa.Slice)
+			if !ok || sl.Low == nil {
+				return
+			}
+			if k, isK := sl.Low.(*ssa.Const); isK && k.Value != nil && k.Value.String() == "0" {
+				return
+			}
+			if _, isSlice := sl.X.Type().Underlying().(*types.Slice); isSlice {
+				longerOf[sl] = sl.X
+			}
+		})
+		if len(longerOf) == 0 {
+			continue
+		}
+		// values used to index a given slice value: s[i], s[i-1] … (the index operand and what it derives from)
+		indexedBy := map[ssa.Value]map[ssa.Value]bool{}
+		ForEachInstr(fn, func(ins ssa.Instruction) {
+			ia, ok := ins.(*ssa.IndexAddr)
+			if !ok {
+				return
+			}
+			if indexedBy[ia.X] == nil {
+				indexedBy[ia.X] = map[ssa.Value]bool{}
+			}
+			DependsOn(ia.Index, func(x ssa.Value) bool {
+				if _, isC := x.(*ssa.Const); !isC {
+					indexedBy[ia.X][x] = true
+				}
+				return false
+			})
+		})
+		// a slice value may be a phi of the original and its re-slice (a reassigned variable)
+		var cutFrom func(v ssa.Value, depth int) []ssa.Value
+		cutFrom = func(v ssa.Value, depth int) []ssa.Value {
+			if depth > 3 {
+				return nil
+			}
+			if l, ok := longerOf[v]; ok {
+				return []ssa.Value{l}
+			}
+			if ph, ok := v.(*ssa.Phi); ok {
+				var out []ssa.Value
+				for _, e := range ph.Edges {
+					out = append(out, cutFrom(e, depth+1)...)
+				}
+				return out
+			}
+			return nil
+		}
+		ord := 0
+		ForEachInstr(fn, func(ins ssa.Instruction) {
+			sl, ok := ins.(*ssa.Slice)
+			if !ok {
+				return
+			}
+			longer := cutFrom(sl.X, 0)
+			if len(longer) == 0 {
+				return
+			}
+			for _, bound := range []ssa.Value{sl.Low, sl.High} {
+				if bound == nil {
+					continue
+				}
+				if _, isC := bound.(*ssa.Const); isC {
+					continue
+				}
+				sites++
+				if indexedBy[sl.X][bound] {
+					continue // computed on the very slice that is being cut: the right base
+				}
+				for _, l := range longer {
+					// the longer slice itself may be a phi/param; indexes recorded on it or on phis that contain it
+					hit := indexedBy[l][bound]
+					if !hit {
+						for base, idx := range indexedBy {
+							if ph, ok := base.(*ssa.Phi); ok && idx[bound] {
+								for _, e := range ph.Edges {
+									if e == l {
+										hit = true
+									}
+								}
+							}
+						}
+					}
+					// but not if the same bound also indexes the shorter slice only
+					if hit {
+						viol++
+						ord++
+						r.Fn(FnName(fn))
+						r.Viol(fmt.Sprintf("base@%s~%d", FnName(fn), ord), fmt.Sprintf("%s re-slices a slice that was already cut at the front, with a bound that was computed by indexing the uncut slice: the position is off by the number of elements cut (a trailing hole survives, or a real element is cut off) whenever something was cut at both ends", FnName(fn)), sl.Pos())
+						return
+					}
+				}
+			}
+		})
+	}
+	if viol == 0 {
+		r.OK("base", fmt.Sprintf("%d re-slices of front-cut slices examined, none bounded by an index of the uncut slice", sites), 0)
+	}
+}
+
+func init() { register("C02", Rule{"R02j", ruleIndexBase}) }
